@@ -300,6 +300,10 @@ def run(chk):
         for c in upd:
             obj = strip(meth(c)[1])
             key = "%s:%s" % (f["n"], obj["n"])
+            if f["n"] == "handle_box_keyword":
+                # the BOX / ENDBOX keywords are the ones whose meaning *is* to change the current input box
+                chk.instance(r_bs, key, nontrivial=False, sample=dict(function=f["n"], note="BOX keyword: sets the current input box by definition"))
+                break
             own = None
             if obj.get("d") == "Parm":
                 p_ = [q for q in f["params"] if q["n"] == obj["n"]][0]
